@@ -427,3 +427,46 @@ def init_stage(rep, tier, seed, prefixes):
     rep.cov["problem_init_records"] = {"spec": "spec/ProblemInit.tla", "records": len(recs), "drift": drift,
                                        "with_aliased_positions": sum(1 for x in recs if any(
                                            len({x["vidx"][v] for v in c["vars"]}) < len(c["vars"]) for c in x["posted"]))}
+
+
+MODEL_TRACES = [("queens", [5], {}, "solve"), ("magic_sequence", [5], {}, "solve"), ("latin_square", [[0, 1, 2]], {}, "solve"),
+                ("quasigroup", [4, True], {}, "solve"), ("schur", [5, True], {}, "solve"), ("circuit", [4], {}, "solve"),
+                ("golomb_bounded", [4, 7, True], {"custom_ca": "golomb"}, "solve"),
+                ("golomb_bounded", [5, 13, True], {"custom_ca": "golomb"}, "solve"),
+                ("golomb_bounded", [5, 11, False], {"custom_ca": "golomb"}, "solve"),
+                ("golomb_bounded", [5, 13, True], {"custom_ca": "golomb"}, "min"),
+                ("golomb_bounded", [5, 12, False], {"custom_ca": "golomb", "ca": 0}, "min"),
+                ("golomb_bounded", [4, 7, True], {"ca": 1}, "solve"),
+                ("knapsack", [[4, 4, 3, 3, 2], [4, 4, 3, 3, 2], 7], {"dh": 1}, "max"),
+                ("tsp", [[[0, 9, 1, 8], [2, 0, 7, 1], [9, 1, 0, 3], [1, 6, 2, 0]]], {"decision": [0, 1, 2, 3]}, "min")]
+
+
+def model_trace_stage(rep, tier, seed, prefixes):
+    """Layer-A traces of the shipped models (real constructors, small sizes), including the Golomb model under its
+    custom consistency algorithm, which filters by itself before calling bound consistency."""
+    with Scratch("mtr") as tmp:
+        outs = run_workers("export_models.py", [{"models": [[n, a] for n, a, _, _ in MODEL_TRACES]}], nucs_env(jit=False), tmp, timeout=600)
+        exported = list(read_ndjson(outs))
+        items = []
+        for k, (m, (name, args, cfg, mode)) in enumerate(zip(exported, MODEL_TRACES)):
+            c = dict({"ca": 0, "vh": 0, "dh": 0, "height": 64}, **cfg)
+            it = {"id": k, "P": m["P"], "cfg": c, "mode": mode}
+            if mode != "solve":
+                it["var"] = m["extra"].get("length_idx", m["extra"].get("weight", len(m["P"]["vidx"]) - 1))
+            items.append(it)
+        traces, verdicts, judged, st, tr = record_and_judge(items, tmp)
+    seen = set()
+    for rid, l, clause in verdicts:
+        if (rid, clause) in seen:
+            continue
+        seen.add((rid, clause))
+        if clause.startswith("XX:"):
+            raise Machinery(f"model trace {MODEL_TRACES[rid][:2]} left the specification's scope: {clause}")
+        if clause.startswith(prefixes):
+            name, args, cfg, mode = MODEL_TRACES[rid]
+            rep.fail({"model": name, "args": args, "cfg": cfg, "mode": mode, "clause": clause, "event": l},
+                     f"{clause} at event {l} of the engine trace of {name}{args} cfg={cfg} mode={mode}")
+    rep.add(states=st, transitions=tr, traces_validated_against_impl=judged)
+    rep.cov["shipped_model_engine_traces"] = {"traces": len(traces), "events": sum(len(t["ev"]) for t in traces),
+                                              "models": sorted({n for n, _, _, _ in MODEL_TRACES}),
+                                              "custom_consistency_algorithm": "golomb (4 traces)"}
